@@ -54,7 +54,7 @@ def gen_ast(rng, real, depth=0):
 def gen_res(rng, ofv_pool, real):
     r = rng.random()
     ofv = None if r < 0.12 else rng.choice(ofv_pool)
-    ms = rng.random() < 0.7
+    ms = rng.random() < 0.8
     cause = None if ms and rng.random() < 0.8 else rng.choice([None, "rounding_errors", "maxevals_exceeded", "rounding_errors"])
     sd = None if rng.random() < 0.1 else rng.choice([0.05, 0.1, 1.2, 3.0, 3.5, 4.1, 5.0])
     warn = [w for w in ["final_zero_gradient", "estimate_near_boundary", "other_warning"] if rng.random() < 0.15]
@@ -90,7 +90,7 @@ def gen_rank_case(rng, tier):
     models = []
     for i in range(n + 1):
         m = gen_res(rng, pool, real)
-        if i == 0 and rng.random() < 0.85:      # base mostly fine
+        if i == 0 and rng.random() < 0.9:      # base mostly fine
             m["ofv"], m["ms"] = base_ofv, True
         if real:
             m["pool"] = rng.randrange(NPOOL)
@@ -113,6 +113,8 @@ def gen_rank_case(rng, tier):
         strict = ["or", ["b", "minimization_successful"], ["and", ["b", "rounding_errors"], ["cmp", "sigdigs", ">=", "0.1"]]]
     else:
         strict = gen_ast(rng, real)
+        if rng.random() < 0.5:
+            strict = ["or", ["b", "minimization_successful"], strict]
     return {"kind": "rank", "real": real, "rank_type": rank_type, "bic_type": bic_type, "cutoff": cutoff,
             "strict": strict, "penalties": penalties, "parent": parent, "models": models,
             "seed": rng.randrange(1 << 30)}
